@@ -101,6 +101,26 @@ let eval (op : string) (args : sx list) : sx list =
   | "cache_hist", [L h] ->
     let one = function L [i; k; ok; tf] -> (((z_of_sx i, z_of_sx k), bool_of_sx ok), bool_of_sx tf) | _ -> failwith "step expected" in
     [A "ok"; L (List.map sx_of_z (entry_counts (List.map one h)))]
+  | "gb_scan", [inp] ->
+    sx_of_out (fun ((recs, clean), _) -> [L (List.map sx_of_gb recs); sx_of_bool clean])
+      (scan_genbank default_registry (bytes_of_sx inp))
+  | "auto_scan", [inp] ->
+    sx_of_out (fun ((recs, fas), clean) ->
+        [L (List.map sx_of_gb recs); L (List.map (fun (d, p) -> L [sx_of_bytes d; sx_of_bytes p]) fas); sx_of_bool clean])
+      (auto_scan default_registry (bytes_of_sx inp))
+  | "gb_write", [g] ->
+    let (gb, res) = gb_of_sx g in
+    (match new_origin res with
+     | Ok blk -> sx_of_out (fun t -> [sx_of_bytes t]) (gb_show default_registry { gb with gb_origin = blk })
+     | o -> sx_of_out (fun _ -> []) o)
+  | "as_date", [s] -> sx_of_out (fun ((y, m), d) -> [sx_of_zbig y; sx_of_zbig m; sx_of_zbig d]) (as_date (bytes_of_sx s))
+  | "date_show", [y; m; d] -> [A "ok"; sx_of_bytes (date_show ((z_of_sx y, z_of_sx m), z_of_sx d))]
+  | "table_parse", [inp] ->
+    let (o, s) = table_parser [] default_registry (st_of (bytes_of_sx inp)) in
+    sx_of_out (fun (ff, _) -> [L (List.map sx_of_feature ff); rest_len s]) o
+  | "table_show", [L ff] -> sx_of_out (fun t -> [sx_of_bytes t]) (table_show default_registry (bytes_of_sx (A "x2020202020")) (z_of_int 21) (List.map feature_of_sx ff))
+  | "wrap_space", [s; n] -> [A "ok"; sx_of_bytes (wrap_space (bytes_of_sx s) (nat_of_int (int_of_z (z_of_sx n))))]
+  | "flatfile_split", [s] -> [A "ok"; L (List.map sx_of_bytes (flatfile_split (bytes_of_sx s)))]
   | "alias", _ | "alias_seq", _ -> [A "same"] (* the frame theorems: nothing the caller holds changes *)
   | _ -> [A "unknown-op"]
 
